@@ -373,7 +373,7 @@ impl<'p> Model<'p> {
             Expr::Un(op, a) => {
                 let v = self.eval(a)?;
                 match op {
-                    UnOp::Plus => Ok(v),
+                    UnOp::Plus => Ok(V::N(Self::num(v)?)),
                     UnOp::Neg => Ok(V::N(-Self::num(v)?)),
                     UnOp::Not => Ok(bool_v(!v.truthy())),
                 }
